@@ -135,7 +135,9 @@ def _task_inner(arg):
         if final_ok:
             try:
                 fser = pyast.Ser(tr.final_tree)
-                lines.append('c04.nonative %s %s %s' % (sexp(eq_on), sexp(bi_on), fser.text()))
+                ftxt = fser.text()
+                lines.append('c04.nonative %s %s %s' % (sexp(eq_on), sexp(bi_on), ftxt))
+                lines.append('c04.regions ' + ftxt)
             except Exception as e:  # noqa
                 final_ok = False
                 case['error'] = 'final tree not serialisable: %r' % (e,)
@@ -155,6 +157,9 @@ def _task_inner(arg):
         k = npass
         if final_ok:
             case['off'] = parse_sexp(ans[k]); k += 1
+            rg = parse_sexp(ans[k]); k += 1
+            offids = set(o[1] for o in case['off'])
+            case['regions'] = [[i for i in r if i in offids] for r in rg] if case['off'] else [[], [], []]
         if orig_sx is not None:
             case['nested'] = int(ans[k]) if ans[k].isdigit() else None; k += 1
             case['anncalls'] = int(ans[k]) if ans[k].isdigit() else None; k += 1
@@ -207,7 +212,7 @@ def _pj(p):
 
 def build_tasks(run, quick):
     import c04_exprs as cx
-    ncfg = len(cx.configs())
+    ncfg = cx.NCFG_BASE
     sk_info = {}
     sk = list(progen.skeleton_programs(4 if quick else 5, 3, cap=(120 if quick else 2000),
                                        rng=random.Random(run.rng.getrandbits(32)), info=sk_info))
@@ -227,34 +232,104 @@ def build_tasks(run, quick):
         else:
             ids = [(n + off) % ncfg]
         tasks.append((_pj(p), ids, True))
+    # LISTS configurations (ids 8, 9) on the programs where lists.py / slices.py have something to do
+    lists_ctx = ('subscript', 'subscript_store', 'slice', 'del_sub', 'tuple_elt', 'starred', 'comp_elt', 'for_iter')
+    for n, p in enumerate(rnd):
+        if quick and n % 3:
+            continue
+        tasks.append((_pj(p), [8 + n % 2], True))
+    for n, p in enumerate(ctx):
+        if p.context in lists_ctx or p.construct in ('augassign', 'del', 'for', 'method', 'starcall'):
+            if quick and p.construct not in ('call', 'and', 'ifexp', 'augassign', 'del', 'for', 'method', 'starcall'):
+                continue
+            tasks.append((_pj(p), [8, 9] if not quick else [8 + n % 2], True))
+    flt = os.environ.get('C04_FILTER')          # debugging aid only: restrict to matching context programs
+    if flt:
+        tasks = [t for t in tasks if flt in ('%s/%s' % (t[0].get('construct'), t[0].get('context')))]
     return tasks, sk_info, len(sk), len(rnd), len(ctx)
 
 
 def _classify(case, res):
-    """Class of a case whose final tree has surviving native nodes: computed from the program (Lean driver: number of
-    conditional expressions nested in one / calls inside directive arguments), never from the failure alone."""
-    kinds = [o[0] for o in case['off']]
-    n_if = sum(1 for k in kinds if k == 'IfExp')
-    n_call = sum(1 for k in kinds if k == 'Call')
-    other = [k for k in kinds if k not in ('IfExp', 'Call')]
+    """Classes of a case whose final tree has surviving native nodes.  Each surviving node must be attributable:
+    an IfExp lying inside the arguments of an `ag__.if_exp(...)` call, in a program that has a conditional expression nested
+    in another (Lean driver, on the ORIGINAL function) -> ifexp_nested_in_ifexp_branch; a Call lying inside a parameter
+    annotation, in a program with a call in a parameter annotation -> call_in_parameter_annotation; a Call lying inside the
+    options argument of `ag__.for_stmt/while_stmt`, in a program with a call inside directive arguments ->
+    call_in_loop_directive_argument.  Anything else: None (a new violation)."""
+    in_ifexp, in_ann, in_opts = [set(x) for x in case.get('regions', [[], [], []])]
     classes = set()
-    if other:
-        return None
-    if n_if:
-        if case['nested'] and n_if <= case['nested']:
+    for kind, i, _ in case['off']:
+        if kind == 'IfExp' and i in in_ifexp and case['nested']:
             classes.add(CLS_IFEXP)
-        else:
-            return None
-    if n_call:
-        d, a = case['dircalls'] or 0, case.get('anncalls') or 0
-        if n_call <= d + a:
-            if d:
-                classes.add(CLS_DIRECTIVE)
-            if a:
-                classes.add(CLS_ANNOT)
+        elif kind == 'Call' and i in in_ann and case.get('anncalls'):
+            classes.add(CLS_ANNOT)
+        elif kind == 'Call' and i in in_opts and case['dircalls']:
+            classes.add(CLS_DIRECTIVE)
         else:
             return None
     return classes
+
+
+def operator_contract(run):
+    """Direct oracle tying `Malt.SemW` (Sem/Wrappers.lean) to the REAL default operators: for every pair/triple of values of a
+    small domain, `ag__.and_/or_/not_/if_exp/eq/not_eq/ld` applied to logging thunks must behave like the Python construct
+    (same result, same evaluation log: laziness and order)."""
+    from malt.impl import api
+    ag = api.PyToPy().get_extra_locals()['ag__']
+    vals = [0, 1, 2, [], [1], None, '', 'x', (), 0.0]
+    bad = []
+    n = 0
+    for a in vals:
+        log1, log2 = [], []
+
+        def t(tag, v, log):
+            def th():
+                log.append(tag)
+                return v
+            return th
+        n += 1
+        if ag.not_(a) != (not a) or ag.ld(a) is not a:
+            bad.append(('not_/ld', repr(a)))
+        for b in vals:
+            for name, py in (('and_', lambda x, y: x() and y()), ('or_', lambda x, y: x() or y())):
+                del log1[:], log2[:]
+                r1 = getattr(ag, name)(t('a', a, log1), t('b', b, log1))
+                r2 = py(t('a', a, log2), t('b', b, log2))
+                n += 1
+                if r1 is not r2 or log1 != log2:
+                    bad.append((name, repr(a), repr(b), list(log1), list(log2)))
+            n += 1
+            if ag.eq(a, b) != (a == b) or ag.not_eq(a, b) != (a != b):
+                bad.append(('eq', repr(a), repr(b)))
+            for c in (0, 1, [], 'x'):
+                del log1[:], log2[:]
+                r1 = ag.if_exp(c, t('t', a, log1), t('e', b, log1), 'c')
+                r2 = t('t', a, log2)() if c else t('e', b, log2)()
+                n += 1
+                if r1 is not r2 or log1 != log2:
+                    bad.append(("if_exp", repr(c), repr(a), repr(b), list(log1), list(log2)))
+    # converted_call under a non-converting policy: f(*args, **kwargs), arguments as packed
+    from malt.core import converter
+    seen = []
+
+    def f(*a, **k):
+        seen.append((a, tuple(sorted(k.items()))))
+        return len(a)
+    opts = converter.ConversionOptions(recursive=False, user_requested=False, optional_features=None)
+    r = ag.converted_call(f, (1, 2) + tuple([3]) + (4,), dict(k=1, **{'j': 2}), None, opts)
+    n += 1
+    if r != 4 or seen != [((1, 2, 3, 4), (('j', 2), ('k', 1)))]:
+        bad.append(('converted_call', r, seen))
+    try:
+        ag.ld(ag.Undefined('x'))
+        bad.append(('ld(Undefined) did not raise',))
+    except NameError:
+        pass
+    run.evaluations += n
+    run.oblige('oracle:default-operator-semantics', 'oracle', not bad, json.dumps(bad[:4], default=str)[:800] if bad else '%d operator applications' % n)
+    for b in bad[:3]:
+        run.fail('a default operator does not behave like the Python construct it replaces', {'operator_case': [str(x) for x in b]}, None)
+    return n
 
 
 def check(run, only_corpus=None):
@@ -280,6 +355,7 @@ def check(run, only_corpus=None):
         run.oblige('checker:noNative', 'checker', False, 'driver unavailable')
         run.cov['search'] = 'none (driver unavailable)'
         return
+    run.cov['operator_contract_cases'] = operator_contract(run)
     tasks, sk_info, nsk, nrnd, nctx = build_tasks(run, quick)
     # corpus first
     cdir = os.path.join(common.VERIF, 'corpus', 'C04')
@@ -387,7 +463,7 @@ def check(run, only_corpus=None):
                 if exact:
                     dyn_stats['exact_all_kinds'] += 1
     # ---- obligations
-    for op in ('functions', 'directives', 'calltrees', 'ifexp', 'logical', 'variables'):
+    for op in ('functions', 'directives', 'calltrees', 'ifexp', 'logical', 'variables', 'slices'):
         d = dis_by_op.get(op, [])
         run.oblige('correspondence:pass:' + op, 'correspondence', not d and npass.get(op, 0) > 0,
                    json.dumps(d[:2]) if d else ('%d pass inputs' % npass.get(op, 0)))
